@@ -119,6 +119,44 @@ def apply_replay_history(c, p):
                 meta["prev"] = prev
 
 
+def confirm_timeouts(cases, budget_ms=60000, max_confirm=24, skip=None):
+    """A 3 s watchdog cannot tell a slow parse (GLR on a long, highly ambiguous input; a loaded machine) from a hang.
+    Every `timeout` answer is re-run alone with a long budget; the answer is replaced by what that run returns (so only
+    a parse that still has not returned after `budget_ms` counts as a hang). At most `max_confirm` re-runs, shortest
+    inputs first; the rest are marked `skipped-unconfirmed-timeout`."""
+    import common
+    todo = [(c, k) for c in cases for k, r in enumerate(c.results) if r.startswith("timeout") and not (skip and skip(c, k))]
+    todo.sort(key=lambda ck: len(ck[0].inputs[ck[1]][2]))
+    singles = []
+    for c, k in todo[:max_confirm]:
+        s = Case(c.text, c.settings, [c.inputs[k]], gram=c.gram, tag="confirm")
+        if hasattr(c, "max_trees"):
+            s.max_trees = c.max_trees
+        singles.append(s)
+    for c, k in todo[max_confirm:]:
+        c.results[k] = "skipped-unconfirmed-timeout"
+    if not singles:
+        return 0
+    old = common.ENV.get("VDYN_TIMEOUT_MS")
+    common.ENV["VDYN_TIMEOUT_MS"] = str(budget_ms)
+    try:
+        answers = run_vdyn([s.jobs() for s in singles], tag="confirm")
+    finally:
+        if old is None:
+            common.ENV.pop("VDYN_TIMEOUT_MS", None)
+        else:
+            common.ENV["VDYN_TIMEOUT_MS"] = old
+    n = 0
+    for (c, k), ans in zip(todo[:max_confirm], answers):
+        a = ans[1] if len(ans) > 1 else "harness-crash"
+        if a.startswith("parse "):
+            a = a[len("parse "):].split(" #", 1)[0]
+        if not a.startswith("timeout"):
+            n += 1
+        c.results[k] = a
+    return n
+
+
 def klass(ans):
     """outcome class of an answer line"""
     w = ans.split(" ", 1)[0]
